@@ -111,6 +111,20 @@ def run(run):
             allcases += cases
             if damaged:
                 run.sample(stream.brief(damaged[len(damaged) // 3]), limit=3)
+        # one Decoder for a series of scans: scans with expected values not enforced, metadata-only scans and failing scans take turns
+        # with ordinary ones - an option belongs to its call, a failure leaves nothing behind
+        dam = [c for c in allcases if any(f != 'none' for f in c['faults'])]
+        ive = [c for c in dam if c['mode'].get('ive')]
+        rest = [c for c in dam if not c['mode'].get('ive')]
+        step = max(1, len(rest) // (3000 if thorough else 600))
+        rest = rest[r % step::step]
+        mixed = []
+        for k, c in enumerate(rest):
+            if ive and k % 2 == 0:
+                mixed.append(ive[(k // 2) % len(ive)])
+            mixed.append(c)
+        stream.replay_cases_shared(run, mixed, 'faults')
+        run.notes['scans_through_shared_decoders'] = len(mixed)
         npool = prefixes_and_suffixes(run, allcases)
         run.notes['pool_messages_truncated_at_every_octet'] = npool
         damaged = [c for c in allcases if any(f not in ('none', 'cut') for f in c['faults']) and not c['mode']['info'] and not c['mode']['filt']
